@@ -598,8 +598,13 @@ def check(pid, cfg, tier, seed):
                     notes.append("proof obligations also broken: " + "; ".join(what)[:1500])
 
         # ------------------------------------------------------------- verdict
-        for k in known_hits.values():
-            print("KNOWN-FINDING: property=%s %s" % (pid, k["what"]))
+        # one line per LISTED finding of this property (the file is never extended at run time); a finding the run
+        # did not meet again (its generated histories differ from seed to seed) says so
+        for k in findings:
+            if k.get("status") != "known" or k.get("property") != pid:
+                continue
+            hit = k["id"] in known_hits
+            print("KNOWN-FINDING: property=%s %s%s" % (pid, k["what"], "" if hit else " [listed; not met by this run]"))
         rc = 0
         # one VIOLATION line per distinct (kind, assertion)
         seen = set()
